@@ -183,6 +183,25 @@ fn done(domain: &str, fs: Vec<Finding>, bytes: Vec<u8>, case: &str) -> Outcome {
     Outcome { vs: fs.into_iter().map(|f| to_violation(domain, f, case)).collect(), bytes, obs: None }
 }
 
+/// A BGP4MP record for a session whose two ends have different address families
+/// has no valid encoding (one AFI field for both addresses, RFC 6396 §4.4.2) and the
+/// daemon never asks for one (both addresses come from the same TCP socket; the
+/// local / kernel pseudo-sources are 0.0.0.0 on both sides): what the encoder does
+/// with such input is recorded as an observation, not as a verdict.
+fn mixed_to_obs(ra: IpAddr, la: IpAddr, mut o: Outcome) -> Outcome {
+    if ra.is_ipv6() != la.is_ipv6() {
+        if let Some(v) = o.vs.first() {
+            let fam = |a: IpAddr| if a.is_ipv6() { "v6" } else { "v4" };
+            o.obs = Some(format!(
+                "obs: BGP4MP with remote {} / local {} addresses (no valid encoding exists; not producible by the daemon): the encoder omits the local address -> an RFC reader reports {}",
+                fam(ra), fam(la), v.sig
+            ));
+        }
+        o.vs.clear();
+    }
+    o
+}
+
 fn encode_failed(domain: &str, what: &str, e: String, case: &str) -> Outcome {
     Outcome { vs: vec![Violation { sig: format!("C19/{domain}/encode-fails/{what}"), what: format!("the encoder did not produce a record: {e}"), case: case.to_string() }], bytes: vec![], obs: None }
 }
@@ -346,7 +365,7 @@ fn eval_case(case: &str) -> Result<Outcome, String> {
             let mp = MpIntent { remote_as: ras, local_as: las, remote_addr: ra, local_addr: la };
             match mrt_encode(&m) {
                 Err(e) => Ok(encode_failed("mrt", &format!("bgp4mp:{}", it.shape()), e, case)),
-                Ok(b) => Ok(done("mrt", oracle::check_bgp4mp(&b, &mp, Some(&it), None), b[4.min(b.len())..].to_vec(), case)),
+                Ok(b) => Ok(mixed_to_obs(ra, la, done("mrt", oracle::check_bgp4mp(&b, &mp, Some(&it), None), b[4.min(b.len())..].to_vec(), case))),
             }
         }
         ("mrt", "msg") => {
@@ -362,7 +381,7 @@ fn eval_case(case: &str) -> Result<Outcome, String> {
             let mp = MpIntent { remote_as: PEER_AS, local_as: LOCAL_AS, remote_addr: ra, local_addr: la };
             match mrt_encode(&m) {
                 Err(e) => Ok(encode_failed("mrt", "bgp4mp:other", e, case)),
-                Ok(b) => Ok(done("mrt", oracle::check_bgp4mp(&b, &mp, None, Some(&body)), b[4.min(b.len())..].to_vec(), case)),
+                Ok(b) => Ok(mixed_to_obs(ra, la, done("mrt", oracle::check_bgp4mp(&b, &mp, None, Some(&body)), b[4.min(b.len())..].to_vec(), case))),
             }
         }
         ("mrt", "pit") => {
@@ -623,6 +642,7 @@ pub fn run(replay: Option<&str>) -> Report {
                 if let Some(ob) = &o.obs {
                     eprintln!("replay: {ob}");
                 }
+                eprintln!("replay: record ({} bytes{}): {}", o.bytes.len(), if case.starts_with("mrt:m") { ", without the 4-byte timestamp" } else { "" }, oracle::hexs(&o.bytes));
                 if o.vs.is_empty() {
                     eprintln!("replay: case {case}: record of {} bytes satisfies every clause", o.bytes.len());
                 }
@@ -635,7 +655,7 @@ pub fn run(replay: Option<&str>) -> Report {
     }
     let thorough = rep.thorough();
     let distinct: Mutex<BTreeSet<u64>> = Mutex::new(BTreeSet::new());
-    let obs: Mutex<BTreeSet<String>> = Mutex::new(BTreeSet::new());
+    let obs: Mutex<std::collections::BTreeMap<String, u64>> = Mutex::new(std::collections::BTreeMap::new());
     let mach: Mutex<Option<String>> = Mutex::new(None);
     for g in groups(thorough) {
         let cases = &g.cases;
@@ -660,7 +680,7 @@ pub fn run(replay: Option<&str>) -> Report {
                         d.insert(h);
                     }
                     if let Some(ob) = o.obs {
-                        obs.lock().unwrap().insert(ob);
+                        *obs.lock().unwrap().entry(ob).or_insert(0) += 1;
                     }
                     local.sample(i, || case.clone());
                     local.violations_from(o.vs);
@@ -673,8 +693,8 @@ pub fn run(replay: Option<&str>) -> Report {
         sub.notes.clear();
         rep.merge(sub);
     }
-    for o in obs.into_inner().unwrap() {
-        rep.notes.push(o);
+    for (o, n) in obs.into_inner().unwrap() {
+        rep.notes.push(format!("{o} (x{n})"));
     }
     if let Some(m) = mach.into_inner().unwrap() {
         rep.machinery_error = Some(m);
